@@ -21,8 +21,8 @@ type CleanCase struct {
 	// "rel" (--spokfile <path relative to cwd>, e.g. ./spokfile, ../spokfile or proj/spokfile from $HOME)
 	Spokfile string `json:"spokfile,omitempty"`
 	// Links are symbolic links in the project tree: path -> target (target relative to the link's directory)
-	Links map[string]string `json:"links,omitempty"`
-	FromHome bool   `json:"from_home,omitempty"` // invoke from $HOME (the parent of the project); needs Spokfile != ""
+	Links    map[string]string `json:"links,omitempty"`
+	FromHome bool              `json:"from_home,omitempty"` // invoke from $HOME (the parent of the project); needs Spokfile != ""
 	// ViaLink: the project is reached through a symbolic link in its path ($HOME/via -> . , project = $HOME/via/proj):
 	// $PWD, the working directory and --spokfile carry the logical path. RealVars: absolute values in the spokfile
 	// are nevertheless written with the physical path.
